@@ -92,7 +92,7 @@ class Contract:
                  self_type=None, ghost=None, fresh_result=False, notes='',
                  total=True, locals=None, may_raise_other=False, decreases=None,
                  asserts=(), frame_carries=None, escape_carries=None, hints=(), inst=(),
-                 static_ensures=(), any_kwargs=False, inline_calls=()):
+                 static_ensures=(), any_kwargs=False, inline_calls=(), no_alias_stores=False):
         self.qualname = qualname
         self.params = dict(params or {})
         self.returns = returns
@@ -115,6 +115,7 @@ class Contract:
         self.hints = list(hints)     # expressions evaluated at every exit (unfolding triggers)
         self.inst = list(inst)       # extra terms at which quantified assumptions are instantiated
         self.frame_carries = frame_carries
+        self.no_alias_stores = no_alias_stores   # `o.f = p.g` (g a list / dict field of ANOTHER object) is an ownership violation here
         self.inline_calls = tuple(inline_calls)   # callees executed from their real body inside THIS function only
         self.any_kwargs = any_kwargs       # (assumed externals such as functools.partial) accepts any keyword
         self.escape_carries = escape_carries
@@ -138,7 +139,7 @@ def inline(*qualnames):
 class Model:
     def __init__(self, qualname, fields=None, invariant=(), bases=(), iterates=None,
                  external=False, optional=None, defaults=None, ghost_fields=(), late_fields=(),
-                 abstract=False):
+                 abstract=False, dict_field=None):
         self.qualname = qualname
         self.fields = dict(fields or {})
         self.invariant = [Clause.of(c) for c in invariant]
@@ -150,6 +151,7 @@ class Model:
         self.ghost_fields = tuple(ghost_fields)
         self.late_fields = tuple(late_fields)
         self.abstract = abstract         # an interface: no object has exactly this class
+        self.dict_field = dict_field     # class derives from dict: the Map field that stands for the mapping itself
 
 
 def model(qualname, **kw):
